@@ -75,11 +75,19 @@ def replay_history(beh, persist):
     """Step one RopeHistory behaviour through a real project, comparing after every call."""
     common.use_repo()
     from rope.base import project as project_mod, change as change_mod, exceptions
+    if os.environ.get("VERIF_REC_DIR") and int(common.digest(beh["trail"]), 16) % 12 == 0:
+        from rec import verif_rec
+        verif_rec.install()      # this behaviour is also recorded for TraceHistory
+        record = True
+    else:
+        record = False
 
     root = common.scratch("c11_")
     try:
         c10.render_tree(root, beh["init"])
         project = open_project(project_mod, root, beh["limit"], persist)
+        if not record:
+            project.history._verif_depth = 1   # recorder (if installed in this worker) skips this project
         hist = project.history
         ids = {}       # id(ChangeSet object) -> spec change id
         keep = []
@@ -197,6 +205,78 @@ def replay_history(beh, persist):
         common.rmtree(root)
 
 
+QUICK_TESTS = ["ropetest/historytest.py", "ropetest/projecttest.py", "ropetest/refactor/renametest.py",
+               "ropetest/refactor/movetest.py", "ropetest/contrib/changestacktest.py",
+               "ropetest/refactor/inlinetest.py"]
+
+
+def repo_test_traces(tier, verdict, extra_dir=None):
+    """Trace validation (code -> spec): run the repository's own tests under the recorder
+    (rec/verif_rec.py, call-through wrappers of History.do/undo/redo) and let TLC decide with
+    spec/TraceHistory.tla whether every recorded call is a step of the history model."""
+    import collections
+    import glob
+    import re
+    import subprocess
+    recdir = common.scratch("c11rec_")
+    info = {"events": 0, "traces": 0, "accepted": 0, "ops": {}}
+    try:
+        tests = ["ropetest"] if tier == "thorough" else QUICK_TESTS
+        env = dict(os.environ, VERIF_REC_DIR=recdir, PYTHONPATH=common.VERIF, PYTHONDONTWRITEBYTECODE="1")
+        p = subprocess.run([sys.executable, "-m", "pytest", "-q", "-p", "no:cacheprovider", "-p", "rec.verif_rec",
+                            "-n", "8", "-x"] + tests, cwd=common.REPO, env=env, capture_output=True, text=True,
+                           timeout=1500)
+        info["pytest"] = p.stdout.strip().splitlines()[-1] if p.stdout.strip() else ""
+        tr = collections.OrderedDict()
+        files = sorted(glob.glob(os.path.join(recdir, "*.ndjson")))
+        if extra_dir:
+            files += sorted(glob.glob(os.path.join(extra_dir, "*.ndjson")))
+        info["driver_trace_files"] = len(files) - len(glob.glob(os.path.join(recdir, "*.ndjson")))
+        for f in files:
+            for line in open(f):
+                e = json.loads(line)
+                if "recerr" in e:
+                    continue
+                tr.setdefault(e["tid"], []).append(e)
+        traces = list(tr.values())
+        info["traces"] = len(traces)
+        info["events"] = sum(len(t) for t in traces)
+        for t in traces:
+            for e in t:
+                info["ops"][e["op"]] = info["ops"].get(e["op"], 0) + 1
+        if not traces:
+            verdict.machinery_failure("recorder produced no traces (pytest: %s)" % info.get("pytest"))
+            return info
+        tf = os.path.join(recdir, "batch.json")
+        with open(tf, "w") as f:
+            json.dump({"traces": [{"events": t} for t in traces]}, f)
+        res = tlc.run("TraceHistory", os.path.join(tlc.SPEC_DIR, "TraceHistory.cfg"), workers=1,
+                      env={"TRACE_FILE": tf}, extra=("-continue",))
+        info["tlc"] = res.summary()
+        print("TLC TraceHistory:", res.summary(), "traces:", len(traces), "events:", info["events"],
+              "violations:", len(res.all_violations))
+        if res.error and not res.all_violations:
+            verdict.machinery_failure("TraceHistory: %s\n%s" % (res.error, res.tail[-600:]))
+            return info
+        bad = {}
+        for name, text in res.all_violations:
+            m = re.findall(r"/\\ tid = (\d+)", text)
+            b = re.findall(r'/\\ bad = "([^"]*)"', text)
+            lpos = re.findall(r"/\\ l = (\d+)", text)
+            if m and b:
+                bad.setdefault(int(m[-1]) - 1, (b[-1], int(lpos[-1]) if lpos else 0))
+        info["accepted"] = len(traces) - len(bad)
+        for ti, (clause, lpos) in sorted(bad.items()):
+            ev = traces[ti][max(0, lpos - 2)] if traces[ti] else {}
+            key = {"act": "trace", "clauses": [clause], "selective": False,
+                   "redo_after_dropped_prerequisite": False, "remove_inverse_missing": False}
+            verdict.failure(key, {"property": PROP, "key": key, "kind": "repository-test trace rejected by "
+                                  "TraceHistory", "clause": clause, "event": ev, "trace": traces[ti][:12]})
+        return info
+    finally:
+        common.rmtree(recdir)
+
+
 def main(tier):
     timer = common.Timer()
     verdict = common.Verdict(PROP)
@@ -246,6 +326,8 @@ def main(tier):
         rnd = common.rng("c11")
         rnd.shuffle(behs)
         behs = behs[:60000]
+    drvdir = common.scratch("c11drv_")
+    os.environ["VERIF_REC_DIR"] = drvdir
     replayed = steps = 0
     nontrivial = 0
     selective = 0
@@ -273,10 +355,15 @@ def main(tier):
     if not samples and behs:
         b = behs[len(behs) // 2]
         samples.append({"limit": b["limit"], "calls": [{"act": s["act"], "arg": s["arg"]} for s in b["trail"]]})
+    os.environ.pop("VERIF_REC_DIR", None)
+    tinfo = repo_test_traces(tier, verdict, extra_dir=drvdir)
+    common.rmtree(drvdir)
     code = verdict.finish()
     common.write_evidence(PROP, tier, "model_checking", {
         "states": total_states, "transitions": total_trans,
-        "traces_validated_against_impl": replayed,
+        "traces_validated_against_impl": replayed + tinfo.get("traces", 0),
+        "behaviours_replayed_spec_to_code": replayed,
+        "repository_test_traces_validated_code_to_spec": tinfo,
         "steps_compared": steps,
         "samples": samples,
         "exhaustive": False,
